@@ -1070,563 +1070,3 @@ def ch1(ctx, R):
             nbytes = len(v[1][1])
     R.check(len(reads) == 1 and nbytes == 4, "reader.TdmsReader._verify_segment_start::constant 4 bytes", vs.where(),
             "the per-segment overhead is one 4-byte tag read", "the segment start check reads %s" % [unparse(r) for r in reads])
-
-
-def _reader_calls_under(ctx, fi, facts, seen, chain):
-    """Calls of reader data methods reachable in fi under `facts` (self-method calls followed)."""
-    prog = ctx.prog
-    cfg = ctx.cfg(fi)
-    r = cfg.reach([cfg.entry], assume=assume_from(facts))
-    out = []
-    for n in sorted(r, key=lambda n: n.id):
-        for c in node_calls(n):
-            cn = call_name(c) or ""
-            if cn.startswith("self._reader.") and cn.split(".")[-1] != "is_index_file_only":
-                out.append((fi, c, list(chain)))
-            elif cn.startswith("self.") and cn.count(".") == 1 and fi.cls is not None:
-                found = prog.lookup(fi.cls, cn[5:])
-                if found and found[0] == "method" and found[2].qual not in seen:
-                    seen.add(found[2].qual)
-                    out += _reader_calls_under(ctx, found[2], facts, seen, chain + [found[2].qual])
-    return out
-
-
-@rule("TS1", "a channel without data type (eagerly read, no receiver) never reaches the closed reader", floor=3)
-def ts1(ctx, R):
-    prog = ctx.prog
-    facts = {"self._raw_data": NONE, "self.data_type": NONE, "index": "<ellipsis>"}
-    for q in ("tdms.TdmsChannel.read_data", "tdms.TdmsChannel.data_chunks", "tdms.TdmsChannel._read_data_values", "tdms.TdmsChannel.__iter__"):
-        fi = prog.func(q)
-        hits = _reader_calls_under(ctx, fi, facts, {fi.qual}, [fi.qual])
-        if hits:
-            f2, c, chain = hits[0]
-            R.violation(q, f2.where(c), "in the state 'eagerly read, no data type' (_raw_data is None because no receiver was created, reader closed) "
-                        "`%s` is reached via %s: this access path raises RuntimeError while channel[:] returns an empty array" % (unparse(c)[:60], " -> ".join(chain)))
-        else:
-            R.ok(q, fi.where(), "under _raw_data is None and data_type is None no reader data method is reachable")
-    # the state exists: get_data_receiver returns None for data_type None and _read_data then skips _set_raw_data
-    g = prog.func("channel_data.get_data_receiver")
-    first = g.node.body[0] if g.node.body else None
-    while isinstance(first, ast.Expr):
-        first = g.node.body[g.node.body.index(first) + 1]
-    R.note("EagerNoType state derivation: get_data_receiver first statement `%s`" % (unparse(first).split("\n")[0] if first is not None else None))
-
-
-@rule("OFS1", "chunk offsets are snapshots: yielded chunk objects do not capture the running-count accumulator", floor=3)
-def ofs1(ctx, R):
-    prog = ctx.prog
-    dc = prog.func("tdms.TdmsFile.data_chunks")
-    # accumulators: locals mutated after a yield and passed into the yielded value
-    yields = [n for n in walk_body(dc.node) if isinstance(n, ast.Yield) and n.value is not None]
-    if not yields:
-        raise AnchorMissing("tdms.TdmsFile.data_chunks: yield")
-    mutated = set()
-    for n in walk_body(dc.node):
-        if isinstance(n, ast.AugAssign) and isinstance(n.target, ast.Subscript) and isinstance(n.target.value, ast.Name):
-            mutated.add(n.target.value.id)
-    y = yields[0]
-    if not isinstance(y.value, ast.Call):
-        R.undecided("tdms.TdmsFile.data_chunks::yielded value", dc.where(y), "not a constructor call")
-        return
-    acc_args = [(i, a.id) for i, a in enumerate(y.value.args) if isinstance(a, ast.Name) and a.id in mutated]
-    if not acc_args:
-        R.ok("tdms.TdmsFile.data_chunks::no accumulator passed", dc.where(y), "the yielded object receives plain values")
-        return
-    seen = set()
-
-    def check_ctor(cls_name, pos, depth=0):
-        ci = prog.classes.get("tdms." + cls_name)
-        if ci is None or "__init__" not in ci.methods or depth > 4 or (cls_name, pos) in seen:
-            return
-        seen.add((cls_name, pos))
-        init = ci.methods["__init__"]
-        params = init.params[1:]
-        if pos >= len(params):
-            return
-        p = params[pos]
-        key = "tdms.%s.__init__::%s" % (cls_name, p)
-        bad = None
-        for n in walk_body(init.node):
-            if isinstance(n, ast.Assign) and any(isinstance(t, ast.Attribute) and dotted(t.value) == "self" for t in n.targets):
-                # stored as is (not subscripted)?
-                for x in ast.walk(n.value):
-                    if isinstance(x, ast.Name) and x.id == p and not _is_subscripted(n.value, x) and not _inside_eager_consumer(n.value, x):
-                        bad = n
-            if isinstance(n, ast.Lambda) and p in _names(n):
-                bad = n
-        for n in init.node.body:
-            for x in ast.walk(n):
-                if isinstance(x, (ast.FunctionDef,)) and p in _names(x):
-                    bad = x
-        if bad is not None:
-            R.violation(key, init.where(bad), "the running-count mapping `%s` (updated by TdmsFile.data_chunks after every yield) is captured by the "
-                        "chunk object (`%s`): offsets looked at after the generator advanced are no longer the count of values delivered before "
-                        "the chunk" % (p, unparse(bad).split("\n")[0][:80]))
-        else:
-            R.ok(key, init.where(), "only values read from the mapping at construction time are kept")
-        # passed on to other constructors
-        for c in walk_body(init.node):
-            if isinstance(c, ast.Call) and isinstance(c.func, ast.Name) and ("tdms." + c.func.id) in prog.classes:
-                for i, a in enumerate(c.args):
-                    if isinstance(a, ast.Name) and a.id == p:
-                        check_ctor(c.func.id, i, depth + 1)
-    for i, nm in acc_args:
-        check_ctor(y.value.func.id if isinstance(y.value.func, ast.Name) else "", i)
-    # and the count is advanced after the yield by the number of values delivered
-    after = [n for n in walk_body(dc.node) if isinstance(n, ast.AugAssign) and isinstance(n.op, ast.Add) and "len(" in unparse(n.value)]
-    R.check(bool(after) and all(n.lineno > y.lineno for n in after), "tdms.TdmsFile.data_chunks::count advanced after the yield", dc.where(),
-            "offsets are the running count of values already delivered", "the running count is not advanced by len(data) after each yield")
-    cdc = prog.func("tdms.TdmsChannel.data_chunks")
-    after = [n for n in walk_body(cdc.node) if isinstance(n, ast.AugAssign) and isinstance(n.op, ast.Add) and "len(" in unparse(n.value)]
-    ys = [n for n in walk_body(cdc.node) if isinstance(n, ast.Yield)]
-    R.check(bool(after) and bool(ys) and all(n.lineno > ys[0].lineno for n in after), "tdms.TdmsChannel.data_chunks::count advanced after the yield", cdc.where(),
-            "channel chunk offsets are the running count", "channel chunk offset is not advanced by len(chunk) after each yield")
-
-
-def _is_subscripted(root, name_node):
-    for x in ast.walk(root):
-        if isinstance(x, ast.Subscript) and x.value is name_node:
-            return True
-        if isinstance(x, ast.Call) and isinstance(x.func, ast.Attribute) and x.func.value is name_node and x.func.attr == "get":
-            return True
-    return False
-
-
-def _inside_eager_consumer(root, name_node):
-    """name occurs inside a generator expression that is the direct argument of an eager consumer"""
-    for x in ast.walk(root):
-        if isinstance(x, ast.Call) and call_name(x) in ("OrderedDict", "dict", "list", "tuple", "sorted", "sum") and x.args \
-                and isinstance(x.args[0], (ast.GeneratorExp, ast.ListComp, ast.DictComp)):
-            if any(y is name_node for y in ast.walk(x.args[0])):
-                return True
-        if isinstance(x, (ast.ListComp, ast.DictComp, ast.SetComp)) and any(y is name_node for y in ast.walk(x)):
-            return True
-    return False
-
-
-# ---------------------------------------------------------------------------
-# C04
-
-@rule("CS1", "a position counter carried through a loop is advanced on every path of the body (continue included)", floor=0)
-def cs1(ctx, R):
-    prog = ctx.prog
-    n_inst = 0
-    for fi in sorted(prog.functions.values(), key=lambda f: f.qual):
-        for loop in [n for n in walk_body(fi.node) if isinstance(n, ast.For)]:
-            def own(n, loop=loop):
-                """statements of this loop's body that are not inside a nested loop"""
-                out = []
-                stack = list(loop.body)
-                while stack:
-                    x = stack.pop()
-                    out.append(x)
-                    if isinstance(x, (ast.For, ast.While, ast.FunctionDef)):
-                        continue
-                    for f_ in ("body", "orelse", "finalbody", "handlers"):
-                        for y in getattr(x, f_, []) or []:
-                            stack.append(y)
-                return out
-            all_incs = [s_ for s_ in own(loop) if isinstance(s_, ast.AugAssign) and isinstance(s_.target, ast.Name) and isinstance(s_.op, ast.Add)
-                        and isinstance(s_.value, ast.Constant) and s_.value.value == 1]
-            for v in sorted({i.target.id for i in all_incs}):
-                incs = [i for i in all_incs if i.target.id == v]
-                # positional use: compared or used as an index inside the body
-                used_pos = any((isinstance(x, ast.Compare) and v in _names(x)) or (isinstance(x, ast.Subscript) and v in _names(x.slice))
-                               for s_ in loop.body for x in ast.walk(s_))
-                if not used_pos:
-                    continue
-                n_inst += 1
-                cfg = ctx.cfg(fi)
-                heads = cfg.where(lambda n: n.kind == "for" and n.ast is loop)
-                ok = True
-                twice = False
-                wit = None
-                through = lambda n: any(n.ast is i for i in incs)
-                for h in heads:
-                    starts = [m for m, k in h.succ if k == "loop" and not through(m)]
-                    r = cfg.reach(starts, avoid=through, follow_exc=False) if starts else set()
-                    if h in r:
-                        ok = False
-                        wit = cfg.path_to(h)
-                    # no path of one iteration passes two increments
-                    for n in cfg.where(through):
-                        r2 = cfg.reach([m for m, k in n.succ if k not in ("exc", "uncaught") and m is not h], avoid=lambda m, h=h: m is h, follow_exc=False)
-                        if any(through(m) for m in r2):
-                            twice = True
-                key = "%s::loop counter %s" % (fi.qual, v)
-                if ok and not twice:
-                    R.ok(key, fi.where(incs[0]), "every path through the loop body passes `%s += 1` exactly once" % v)
-                elif twice:
-                    R.violation(key, fi.where(incs[0]), "`%s += 1` is executed twice on a path of the loop body: afterwards `%s` no longer names the position "
-                                "of the loop item" % (v, v))
-                else:
-                    R.violation(key, fi.where(incs[0]), "`%s += 1` is skipped on a path of the loop body (e.g. through `continue`): afterwards `%s` no longer "
-                                "names the position of the loop item, and comparisons against it select the wrong segment" % (v, v),
-                                path=cfg.describe_path(wit) if wit else None)
-    # positive control
-    import ast as _ast
-    from .core import Module, FuncInfo
-    from .cfg import CFG
-    src = "def f(xs, a):\n    i = a\n    for x in xs:\n        if x is None:\n            continue\n        if i == a:\n            pass\n        i += 1\n"
-    tree = _ast.parse(src)
-    g = CFG(tree.body[0])
-    loop = tree.body[0].body[1]
-    inc = loop.body[-1]
-    h = [n for n in g.nodes if n.kind == "for"][0]
-    r = g.reach([m for m, k in h.succ if k == "loop"], avoid=lambda n: n.ast is inc, follow_exc=False)
-    R.control("fixture: increment skipped by continue is detected", h in r)
-    R.note("positional loop counters found in the package: %d" % n_inst)
-
-
-@rule("ES1", "the window loop numbers segments from the first segment of the window", floor=1)
-def es1(ctx, R):
-    prog = ctx.prog
-    fi = prog.func("reader.TdmsReader.read_raw_data_for_channel")
-    loops = [n for n in walk_body(fi.node) if isinstance(n, ast.For) and "self._segments" in unparse(n.iter)]
-    if not loops:
-        raise AnchorMissing("reader.TdmsReader.read_raw_data_for_channel: loop over self._segments")
-    lp = loops[0]
-    it = lp.iter
-    if isinstance(it, ast.Call) and call_name(it) == "enumerate":
-        sl = it.args[0]
-        start = it.args[1] if len(it.args) > 1 else None
-        for k in it.keywords:
-            if k.arg == "start":
-                start = k.value
-        lower = sl.slice.lower if isinstance(sl, ast.Subscript) and isinstance(sl.slice, ast.Slice) else None
-        good = start is not None and lower is not None and unparse(start).replace("int(", "").rstrip(")") == unparse(lower)
-        R.check(good, "reader.TdmsReader.read_raw_data_for_channel::enumerate start", fi.where(lp),
-                "segment numbers start at the slice's first segment", "enumerate(%s, start=%s): the segment number does not start at the slice's lower bound, "
-                "so the comparisons with start_segment / end_segment pick the wrong segments" % (unparse(sl), unparse(start) if start is not None else "0"))
-        idx = lp.target.elts[0].id if isinstance(lp.target, ast.Tuple) and isinstance(lp.target.elts[0], ast.Name) else None
-    else:
-        # manual counter: CS1 covers the increment; it must be initialised with the slice's lower bound
-        idx = None
-        sl = it
-        lower = sl.slice.lower if isinstance(sl, ast.Subscript) and isinstance(sl.slice, ast.Slice) else None
-        R.undecided("reader.TdmsReader.read_raw_data_for_channel::manual segment counter", fi.where(lp),
-                    "segments are numbered by a hand-maintained counter (its increments are checked by CS1; its initial value is not decided)")
-    # both first- and last-segment adjustments are present and keyed on that number
-    tests = [unparse(n.test) for n in ast.walk(lp) if isinstance(n, ast.If)]
-    R.check(any("== start_segment" in t for t in tests) and any("== end_segment" in t for t in tests),
-            "reader.TdmsReader.read_raw_data_for_channel::first/last segment adjustments", fi.where(lp),
-            "leading values are skipped in the first and trailing chunks dropped in the last segment",
-            "the first-segment or last-segment adjustment is missing")
-
-
-@rule("CS2", "data and every scaler array are windowed by the same slice", floor=2)
-def cs2(ctx, R):
-    """In normal form, the windows applied to the data array and to the scaler arrays are compared (each window is made relative to
-    the array it is applied to, since bounds such as len(x) - trim mention the array)."""
-    from .sym import Sym, show, alpha
-    from .sem import find, W, subst
-    prog = ctx.prog
-
-    def is_window(w):
-        if not isinstance(w, tuple) or not w:
-            return False
-        if w[0] == "slice" or (w[0] == "call" and w[1] == "slice"):
-            return True
-        if w[0] == "phi":
-            return is_window(w[2]) and is_window(w[3])
-        return False
-
-    def norm_window(w):
-        if w[0] == "call" and w[1] == "slice":
-            a = list(w[2]) + [("const", None)] * (3 - len(w[2]))
-            if len(w[2]) == 1:
-                a = [("const", None), w[2][0], ("const", None)]
-            return ("slice",) + tuple(a[:3])
-        if w[0] == "phi":
-            return ("phi", w[1], norm_window(w[2]), norm_window(w[3]))
-        return w
-    for q in ("reader._trim_channel_chunk", "channel_data.slice_raw_data"):
-        fi = prog.func(q)
-        v = Sym(prog, fi, None).function_value()
-        apps = [(x[1], x[2]) for x, _b in find(v, ("sub", W(), W())) if is_window(x[2])]
-        wins = {alpha(subst(norm_window(w), base, ("<x>",))) for base, w in apps}
-        on_data = [b for b, w in apps if b[0] == "attr" and b[2] == "data"]
-        on_scalers = [b for b, w in apps if not (b[0] == "attr" and b[2] == "data")]
-        if not on_data or not on_scalers:
-            if find(v, ("loop", W(), W())) or v[0] == "opaque":
-                R.undecided(q, fi.where(), "windowing of %s not in normal form" % ("the scaler arrays" if on_data else "the data"))
-            else:
-                R.violation(q, fi.where(), "%s: data and scaler data are not both windowed" % (
-                    "only the data array is sliced" if on_data else ("only the scaler arrays are sliced" if on_scalers else "no slice is applied")))
-            continue
-        R.check(len(wins) == 1, q, fi.where(), "one window `%s` applied to .data and to each scaler array" % show(list(wins)[0])[:80],
-                "different windows are applied to data and scaler data: %s" % sorted(show(w)[:80] for w in wins))
-
-
-# parameters where None means 'not given' and a falsy value (0, '') is meaningful
-NONE_PARAMS = {
-    "channel_data.slice_raw_data": {"length": "length 0 is an empty window"},
-    "tdms.TdmsChannel.read_data": {"length": "length 0 is an empty window"},
-    "tdms.TdmsChannel._read_channel_data": {"length": "length 0 is an empty window"},
-    "reader.TdmsReader.read_raw_data_for_channel": {"length": "length 0 is an empty window"},
-    "tdms_segment.TdmsSegment.read_raw_data_for_channel": {"num_chunks": "0 chunks is an empty read"},
-    "common._components_to_path": {"group": "the empty string is a valid group name", "channel": "the empty string is a valid channel name"},
-    "tdms.TdmsChannel._read_slice": {"start": "0 is a valid bound", "stop": "0 is a valid bound", "step": "handled explicitly"},
-}
-
-
-@rule("NT1", "optional arguments whose zero/empty value is meaningful are tested with `is None`, never by truthiness", floor=8)
-def nt1(ctx, R):
-    prog = ctx.prog
-    for q, params in sorted(NONE_PARAMS.items()):
-        fi = prog.func(q)
-        for p, why in sorted(params.items()):
-            if p not in fi.params:
-                raise AnchorMissing("%s parameter %s" % (q, p))
-            aliases = {p}
-            # locals that just carry the parameter (e.g. loop variable over (group, channel))
-            for n in walk_body(fi.node):
-                if isinstance(n, (ast.ListComp, ast.GeneratorExp, ast.SetComp)):
-                    for g in n.generators:
-                        if isinstance(g.iter, (ast.Tuple, ast.List)) and any(isinstance(e, ast.Name) and e.id == p for e in g.iter.elts) \
-                                and isinstance(g.target, ast.Name):
-                            aliases.add(g.target.id)
-                if isinstance(n, ast.For) and isinstance(n.iter, (ast.Tuple, ast.List)) and any(isinstance(e, ast.Name) and e.id == p for e in n.iter.elts) \
-                        and isinstance(n.target, ast.Name):
-                    aliases.add(n.target.id)
-            bad = None
-            for n in ast.walk(fi.node):
-                tests = []
-                if isinstance(n, (ast.If, ast.While, ast.IfExp)):
-                    tests.append(n.test)
-                if isinstance(n, ast.comprehension):
-                    tests.extend(n.ifs)
-                if isinstance(n, ast.BoolOp):
-                    tests.extend(n.values)
-                if isinstance(n, ast.UnaryOp) and isinstance(n.op, ast.Not):
-                    tests.append(n.operand)
-                for t in tests:
-                    if isinstance(t, ast.Name) and t.id in aliases:
-                        bad = t
-            key = "%s::%s" % (q, p)
-            if bad is not None:
-                R.violation(key, fi.where(bad), "`%s` is tested by truthiness, but %s: the value 0/'' is treated like 'not given'" % (p, why))
-            else:
-                R.ok(key, fi.where(), "only compared with None / used as a value")
-
-
-# ---------------------------------------------------------------------------
-# C19 (and the window clauses of C04)
-
-@rule("BD1", "the per-channel window read is bounded by the request: segment slice, chunk offset and chunk count depend on it", floor=7)
-def bd1(ctx, R):
-    """Dependence analysis through local assignments and helpers (sa/region.py): which request parameters the segment slice, the
-    chunk offset and the chunk count handed to the segment reader are computed from."""
-    from .sym import Sym, show
-    from .sem import calls_to, find, W
-    from .region import cone, backward_slice, data_roots
-    prog = ctx.prog
-    fi = prog.func("reader.TdmsReader.read_raw_data_for_channel")
-    params = [p for p in fi.params if p != "self"]
-    if len(params) < 3:
-        raise AnchorMissing("reader.TdmsReader.read_raw_data_for_channel(channel_path, offset, length)")
-    OFF, LEN = params[1], params[2]
-    sy = Sym(prog, fi, fi.cls)
-    loops = []
-    for n in walk_body(fi.node):
-        if isinstance(n, ast.For):
-            env, _g = sy.env_at(n)
-            it = sy.expr(n.iter, env)
-            if find(it, ("self", "_segments")):
-                loops.append((n, it))
-    if not loops:
-        raise AnchorMissing("reader.TdmsReader.read_raw_data_for_channel: loop over self._segments")
-    lp, it = loops[0]
-    sl = [n for n in ast.walk(lp.iter) if isinstance(n, ast.Subscript) and isinstance(n.slice, ast.Slice)]
-    if not sl or not find(it, ("sub", ("self", "_segments"), ("slice", W(), W(), W()))):
-        R.violation("reader.TdmsReader.read_raw_data_for_channel::segment window", fi.where(lp), "the loop iterates all segments instead of the slice "
-                    "[first overlapping segment : last overlapping segment]")
-    else:
-        s_ = sl[0].slice
-        lo = cone(ctx, fi, s_.lower) if s_.lower is not None else set()
-        hi = cone(ctx, fi, s_.upper) if s_.upper is not None else set()
-        searched = len(find(it, ("call", "numpy.searchsorted", W(), W()))) >= 2 or len(
-            [c for c in walk_body(fi.node) if isinstance(c, ast.Call) and (call_name(c) or "").endswith("searchsorted")]) >= 2
-        R.check(OFF in lo and searched, "reader.TdmsReader.read_raw_data_for_channel::first segment by binary search", fi.where(lp),
-                "lower bound depends on searchsorted(segment_offsets, offset)", "the first segment read does not depend on the requested offset")
-        R.check(LEN in hi, "reader.TdmsReader.read_raw_data_for_channel::last segment by binary search", fi.where(lp),
-                "upper bound depends on searchsorted(segment_offsets, offset + length)", "the last segment read does not depend on the requested length")
-    callee = prog.func("tdms_segment.TdmsSegment.read_raw_data_for_channel")
-    calls = [c for c in calls_to(prog, fi, callee.qual) if any(x is c for x in ast.walk(lp))]
-    if not calls:
-        calls = [c for c in ast.walk(lp) if isinstance(c, ast.Call) and isinstance(c.func, ast.Attribute) and c.func.attr == callee.name]
-    if not calls:
-        raise AnchorMissing("reader.TdmsReader.read_raw_data_for_channel: call of segment.read_raw_data_for_channel")
-    c = calls[0]
-    cp = [p for p in callee.params if p != "self"]
-    bound = {}
-    for i_, a in enumerate(c.args):
-        if i_ < len(cp):
-            bound[cp[i_]] = a
-    for k in c.keywords:
-        bound[k.arg] = k.value
-    co = bound.get(cp[2]) if len(cp) > 2 else None
-    nc = bound.get(cp[3]) if len(cp) > 3 else None
-    co_cone = cone(ctx, fi, co) if co is not None else set()
-    R.check(co is not None and OFF in co_cone and not isinstance(co, ast.Constant), "reader.TdmsReader.read_raw_data_for_channel::chunk_offset", fi.where(c),
-            "leading chunks before the window are skipped (chunk_offset depends on offset)",
-            "chunk_offset passed to the segment reader (`%s`) does not depend on the requested offset: all leading chunks are read and trimmed afterwards" % (
-                unparse(co) if co is not None else "default 0"))
-    # num_chunks must depend on the END of the window by data flow (the loop variable depends on the slice bounds, which would make
-    # everything in the loop 'depend' on the length)
-    nc_data = cone(ctx, fi, nc, loops=False) if nc is not None else set()
-    R.check(nc is not None and LEN in nc_data, "reader.TdmsReader.read_raw_data_for_channel::num_chunks", fi.where(c),
-            "trailing chunks after the window are not read (num_chunks depends on the window end)",
-            "the number of chunks requested from the last segment (`%s`) does not depend on where the window ends: every remaining chunk of the "
-            "segment is read (for interleaved data in one go) and the surplus is trimmed afterwards" % (unparse(nc) if nc is not None else "None = to the end"))
-    # truncated final chunk: the chunk count is computed from a remainder (x % chunk size, or divmod) of a quantity that is not the
-    # request offset's skip count, i.e. of the segment's own length; or the reader consults the recorded final chunk lengths
-    aware = False
-    if nc is not None:
-        for frames, e in backward_slice(ctx, fi, nc):
-            g = frames[-1][0]
-            for x in ast.walk(e):
-                left = None
-                if isinstance(x, ast.BinOp) and isinstance(x.op, ast.Mod) and not (isinstance(x.left, ast.Constant) and isinstance(x.left.value, str)):
-                    left = x.left
-                elif isinstance(x, ast.Call) and call_name(x) == "divmod" and len(x.args) == 2:
-                    left = x.args[0]
-                if left is not None:
-                    roots = data_roots(ctx, frames, left)
-                    if OFF not in roots:
-                        aware = True
-                if isinstance(x, ast.Attribute) and x.attr == "final_chunk_lengths_override":
-                    aware = True
-    R.check(aware, "reader.TdmsReader.read_raw_data_for_channel::truncated final chunk", fi.where(c),
-            "the chunk count dropped at the window end accounts for a shorter final chunk (segment length modulo chunk size)",
-            "the number of trailing chunks to drop is computed as if every chunk were full: with a truncated final chunk one chunk too many or too "
-            "few is read and the trim becomes negative")
-    # TdmsSegment.read_raw_data_for_channel: seek distance and stop chunk
-    CO, NC = ("param", cp[2]), ("param", cp[3])
-    sc = Sym(prog, callee, callee.cls)
-    ok_seek = False
-    for x in walk_body(callee.node):
-        if isinstance(x, ast.Call) and isinstance(x.func, ast.Attribute) and x.func.attr == "seek" and len(x.args) == 2:
-            env, _g = sc.env_at(x)
-            d = sc.expr(x.args[0], env)
-            rel = dotted(x.args[1]) in ("os.SEEK_CUR", "io.SEEK_CUR") or prog.try_fold(x.args[1], callee.module, default=None) == 1
-            if rel and d[0] == "binop" and d[1] == "*" and any(find(t, CO) for t in d[2]) and len(d[2]) == 2:
-                ok_seek = True
-    R.check(ok_seek, "tdms_segment.TdmsSegment.read_raw_data_for_channel::seek past leading chunks", callee.where(),
-            "seeks chunk_size * chunk_offset bytes past the data start", "leading chunks are not skipped by a relative seek of chunk size x chunk offset")
-    inner = calls_to(prog, callee, "tdms_segment.TdmsSegment._read_channel_data_chunks", callee.cls)
-    ok_stop = False
-    for x in inner:
-        env, _g = sc.env_at(x)
-        vals = [sc.expr(a, env) for a in x.args] + [sc.expr(k.value, env) for k in x.keywords]
-        for v in vals:
-            if find(v, NC) and find(v, CO) and find(v, ("binop", "+", W())):
-                ok_stop = True
-    R.check(ok_stop, "tdms_segment.TdmsSegment.read_raw_data_for_channel::stop chunk", callee.where(),
-            "stop chunk = chunk_offset + num_chunks", "the stop chunk does not depend on num_chunks and chunk_offset")
-    # single chunk fetch for integer indexing
-    ri = prog.func("reader.TdmsReader.read_channel_chunk_for_index")
-    cs_ = calls_to(prog, ri, callee.qual) or [x for x in walk_body(ri.node) if isinstance(x, ast.Call) and isinstance(x.func, ast.Attribute)
-                                              and x.func.attr == callee.name]
-    if not cs_:
-        raise AnchorMissing("reader.TdmsReader.read_channel_chunk_for_index: call of segment.read_raw_data_for_channel")
-    b2 = {}
-    for i_, a in enumerate(cs_[0].args):
-        if i_ < len(cp):
-            b2[cp[i_]] = a
-    for k in cs_[0].keywords:
-        b2[k.arg] = k.value
-    co2, nc2 = b2.get(cp[2]), b2.get(cp[3])
-    ip = [p for p in ri.params if p != "self"][1]
-    one = nc2 is not None and prog.try_fold(nc2, ri.module, default=None) == 1
-    R.check(one and co2 is not None and ip in cone(ctx, ri, co2), "reader.TdmsReader.read_channel_chunk_for_index::one chunk", ri.where(cs_[0]),
-            "fetches exactly the chunk containing the index", "integer indexing fetches `%s` chunks starting at `%s`" % (
-                unparse(nc2) if nc2 is not None else "all", unparse(co2) if co2 is not None else "0"))
-
-
-@rule("GD1", "the contiguous per-channel reader reads only the requested channel and skips the others arithmetically", floor=3)
-def gd1(ctx, R):
-    from .sym import Sym, show
-    prog = ctx.prog
-    ci = prog.cls("tdms_segment.ContiguousDataReader")
-    R.check("_read_channel_data_chunk" in ci.methods, "tdms_segment.ContiguousDataReader::overrides _read_channel_data_chunk",
-            "%s:%d" % (ci.module.relpath, ci.node.lineno), "own per-channel reader", "falls back to the base implementation, which reads all channels of the chunk")
-    if "_read_channel_data_chunk" not in ci.methods:
-        return
-    fi = ci.methods["_read_channel_data_chunk"]
-    cfg = ctx.cfg(fi)
-    sy = Sym(prog, fi, ci, inline=False)
-    chan = [("param", p) for p in fi.params if p != "self"]
-    reads = cfg.where(lambda n: any((isinstance(c.func, ast.Attribute) and c.func.attr in ("read_values", "read", "readinto")) or call_name(c) in ("fromfile",)
-                                    for c in node_calls(n)))
-    if not reads:
-        raise AnchorMissing("tdms_segment.ContiguousDataReader._read_channel_data_chunk: read_values call")
-
-    def same_channel(g):
-        """obj.path == <channel path parameter>"""
-        if isinstance(g, tuple) and len(g) == 4 and g[0] == "cmp" and g[1] == "==":
-            for a, b in ((g[2], g[3]), (g[3], g[2])):
-                if isinstance(a, tuple) and a[0] == "attr" and a[2] == "path" and b in chan:
-                    return True
-        return False
-
-    def other_channel(g):
-        return isinstance(g, tuple) and len(g) == 4 and g[0] == "cmp" and g[1] == "!=" and same_channel(("cmp", "==", g[2], g[3]))
-    heads = cfg.where(lambda n: n.kind == "for")
-    for rn in reads:
-        _env, guards = sy.env_at(rn.ast)
-        guarded = any(same_channel(g) for g in guards)
-        R.check(guarded, "tdms_segment.ContiguousDataReader._read_channel_data_chunk::`%s`" % rn.text()[:50], fi.where(rn.ast),
-                "data is read only under `obj.path == channel_path`",
-                "`%s` reads data of an object that is not the requested channel: the bytes fetched are no longer bounded by the request" % rn.text()[:70])
-        # after the requested channel was read the loop ends
-        r = cfg.reach([m for m, k in rn.succ if k not in ("exc", "uncaught")], follow_exc=False)
-        R.check(not any(h in r for h in heads), "tdms_segment.ContiguousDataReader._read_channel_data_chunk::stops after the channel", fi.where(rn.ast),
-                "the loop is left after reading the requested channel", "objects after the requested channel are still visited")
-    # other objects advance a position by arithmetic only
-    adv = []
-    for n in walk_body(fi.node):
-        if isinstance(n, ast.AugAssign) and isinstance(n.op, ast.Add) and isinstance(n.target, ast.Name):
-            _env, guards = sy.env_at(n)
-            if any(other_channel(g) for g in guards):
-                adv.append(n)
-    R.check(len(adv) >= 1, "tdms_segment.ContiguousDataReader._read_channel_data_chunk::skip by arithmetic", fi.where(),
-            "other channels are skipped by adding their size to the position", "other channels are not skipped arithmetically")
-
-
-@rule("CG1", "whole-file and whole-segment readers are unreachable from the per-channel entry points", floor=6)
-def cg1(ctx, R):
-    prog = ctx.prog
-    cg = ctx.callgraph()
-    forbidden = ["reader.TdmsReader.read_raw_data", "tdms_segment.TdmsSegment.read_raw_data", "tdms_segment.TdmsSegment._read_data_chunks"]
-    for q in forbidden:
-        prog.func(q)
-    entries = ["tdms.TdmsChannel.read_data", "tdms.TdmsChannel.__getitem__", "tdms.TdmsChannel._read_slice", "tdms.TdmsChannel._read_at_index",
-               "tdms.TdmsChannel.data_chunks", "tdms.TdmsChannel.__iter__"]
-    kinds = {"direct", "self", "super", "receiver", "byname-unique", "ctor", "prop"}
-    for e in entries:
-        prog.func(e)
-        seen = cg.reachable([e], kinds=kinds)
-        hit = [f for f in forbidden if f in seen]
-        if hit:
-            R.violation(e, prog.func(e).where(), "%s is reachable: a per-channel read goes through the reader for all channels" % hit[0],
-                        path=cg.chain(seen, hit[0]))
-        else:
-            R.ok(e, prog.func(e).where(), "%d functions reachable, none of the whole-file/whole-segment readers" % len(seen))
-
-
-@rule("CH1", "integer indexing serves repeated reads of a chunk from the cache and otherwise fetches one chunk", floor=2)
-def ch1(ctx, R):
-    prog = ctx.prog
-    fi = prog.func("tdms.TdmsChannel._read_at_index")
-    cfg = ctx.cfg(fi)
-    from .rules_cursor import _cache_hit_test
-    _cache_hit_test(ctx, R, fi)
-    # the fetch is not executed when the hit test held: a return under the test precedes it
-    fetch = cfg.where(lambda n: any(call_name(c) == "self._read_channel_data_chunk_for_index" for c in node_calls(n)))
-    if not fetch:
-        raise AnchorMissing("tdms.TdmsChannel._read_at_index: chunk fetch")
-    vs = prog.func("reader.TdmsReader._verify_segment_start")
-    reads = [c for c in walk_body(vs.node) if isinstance(c, ast.Call) and isinstance(c.func, ast.Attribute) and c.func.attr == "read"]
-    R.check(len(reads) == 1 and prog.try_fold(reads[0].args[0]) == 4, "reader.TdmsReader._verify_segment_start::constant 4 bytes", vs.where(),
-            "the per-segment overhead is one 4-byte tag read", "the segment start check reads %s" % [unparse(r) for r in reads])
